@@ -28,9 +28,13 @@ def forUp {σ : Type} (lo hi : Nat) (s : σ) (f : Nat → σ → σ) : σ :=
 def forDown {σ : Type} (cnt : Nat) (s : σ) (f : Nat → σ → σ) : σ :=
   (List.range cnt).reverse.foldl (fun s k => f k s) s
 
-/-- `Σ_{i<n} f i`, accumulated left to right from 0 -/
-def sumN [Add K] [OfNat K 0] (n : Nat) (f : Nat → K) : K :=
-  (List.range n).foldl (fun acc i => acc + f i) 0
+/-- `acc + f i + f (i+1) + … + f (i+k-1)`, left to right, no allocation -/
+def sumFrom [Add K] (f : Nat → K) : Nat → Nat → K → K
+  | 0, _, acc => acc
+  | k + 1, i, acc => sumFrom f k (i + 1) (acc + f i)
+
+/-- `Σ_{i<n} f i`, accumulated left to right from 0 (tail recursive, allocation free) -/
+def sumN [Add K] [OfNat K 0] (n : Nat) (f : Nat → K) : K := sumFrom f n 0 0
 
 /-- `np.sum` of a vector -/
 def sumList [Add K] [OfNat K 0] (l : List K) : K := l.foldl (fun acc x => acc + x) 0
